@@ -10,8 +10,9 @@ from vlib.searchinv import check_search_data, check_reported_best
 LEVEL = "fault_enumeration"
 RULE = ("For each Hypothesis-generated problem and parameter set a clean Solve() of n<=60 (quick) / 80 (thorough) "
         "trials is recorded; then the objective is armed to raise on its k-th evaluation for EVERY k in 2..n and for "
-        "each of 7 exception types (ValueError, ZeroDivisionError, custom Exception, custom BaseException, "
-        "KeyboardInterrupt, SystemExit, GeneratorExit) and Solve is run again. Oracle: Solve returns; successful "
+        "each of 9 exception types (ValueError, ZeroDivisionError, custom Exception, custom BaseException, "
+        "KeyboardInterrupt, SystemExit, GeneratorExit, StopIteration, MemoryError), built with a message, with no "
+        "argument at all or with several arguments (the form rotates with k and the type), and Solve is run again. Oracle: Solve returns; successful "
         "evaluations = first k-1 of the clean run; trial count, best point/value reflect exactly those; the search "
         "information passes the C06 invariants with k-1 trials (failed point absent); the notice is printed. One "
         "evaluation = one (problem, k, exception type) fault run. Non-trivial: k such that trial k-1 set a new "
